@@ -144,9 +144,9 @@ static std::string runCase(const HCase &c, Hist20 *h = nullptr) {
         while (!held.empty()) { scpiheap_free(&I.ctx.error_info_heap, held.front().ptr, false); held.pop_front(); }
         SCPI_ErrorClear(&I.ctx);
         if (c.heap >= 2) {
-            std::string t = uniqueText(97, std::min(c.heap - 1, (size_t) 255));
-            XBuf tb(t.size() + 1); memcpy(tb.p, t.c_str(), t.size() + 1);
-            SCPI_ErrorPushEx(&I.ctx, -113, tb.p, 0);
+            std::string t = uniqueText(97, c.heap - 1);          // the whole heap: every byte must be available again
+            XBuf tb(t.size()); memcpy(tb.p, t.data(), t.size());
+            SCPI_ErrorPushEx(&I.ctx, -113, tb.p, t.size());
             scpi_error_t er;
             SCPI_ErrorPop(&I.ctx, &er);
             std::string got;
@@ -195,7 +195,7 @@ static void runEnum(const Opt &o, Ev &ev) {
 
 static bool g_holdOps = getenv("VF_C20_HOLD") != nullptr;    // exploration only
 static HCase decode(Src &s) {
-    HCase c; c.cap = (int) s.range(1, 4); c.heap = s.prob(1, 3) ? s.range(2, 15) : s.range(16, 256);
+    HCase c; c.cap = (int) s.range(1, 4); c.heap = s.prob(1, 3) ? s.range(2, 15) : s.prob(1, 5) ? s.range(257, 700) : s.range(16, 256);
     int n = (int) s.range(1, 1000);
     int kept = 0;
     for (int i = 0; i < n; i++) {
@@ -209,7 +209,9 @@ static HCase decode(Src &s) {
         if (st.op == H_PUSHTEXT) while (kept > 0) { c.steps.push_back({H_RELEASE, 0}); kept--; }
         if (st.op == H_POPHOLD) kept++;
         if (st.op == H_RELEASE && kept > 0) kept--;
-        if (st.op == H_PUSHTEXT) st.len = std::min((size_t) 255, (size_t) (s.prob(1, 4) ? s.range(0, c.heap) : s.range(0, std::max((size_t) 1, c.heap / 3))));
+        // texts pushed with an explicit length (every step whose index is odd or 2 mod 3, see runCase) may be longer than the 255
+        // characters an automatic length stops at
+        if (st.op == H_PUSHTEXT) st.len = std::min((size_t) ((i & 1) || i % 3 == 2 ? 600 : 255), (size_t) (s.prob(1, 4) ? s.range(0, c.heap) : s.range(0, std::max((size_t) 1, c.heap / 3))));
         c.steps.push_back(st);
     }
     return c;
